@@ -65,15 +65,17 @@ CLAIMS = {
                 "solutions (wd_extra clause in Comparator / DomainMapping); The._evaluate_ re-exports likewise; Entity / SetOf "
                 "/ QueryObjectDescriptor._evaluate_ proved for bound and unbound selected variables.",
                 note="predicate-form constructor arguments (C13) not included; T1, T3"),
-    'C16': dict(level='other', text="Flatten._apply_mapping_ yields exactly one HashedValue per element of the input value in order "
+    'C16': dict(level=P, text="Flatten._apply_mapping_ yields exactly one HashedValue per element of the input value in order "
                 "(a non-iterable is a singleton): soundness and completeness against MapRel; DomainMapping._evaluate__ keeps "
                 "the child's bindings in every row; QueryObjectDescriptor._evaluate_ / SetOf evaluate all selected "
                 "expressions of a row under one binding, so the flattened element stays correlated with its parent whether "
-                "or not the parent is selected or further conditions exist.",
-                note="level other: a known finding is recorded (result cache on, the default: a logical operator over a condition on "
-                     "the flattened element replays, for the second and later elements of one parent, what it cached for the "
-                     "first - the operator caches are keyed by the parent variable only); the deductive obligations are for the "
-                     "cache-off configuration; iteration protocol of user iterables (A6): element j for 0 <= j < len; T1, T3"),
+                "or not the parent is selected or further conditions exist; Flatten lists itself among its variable "
+                "instances, so the keys of every result cache above it include the element.",
+                note="the deductive obligations are for a cold result cache (what is written, under which keys); that replaying "
+                     "from the caches gives the same rows for conditions on the element is exercised by the bounded families "
+                     "'conditions on the flattened element' (cache on / off) only - the defect they found (caches keyed by the "
+                     "parent variable only) was repaired by 488f548; iteration protocol of user iterables (A6): element j for "
+                     "0 <= j < len; T1, T3"),
     'C19': dict(level=P, text="R5/C1 of the interface contract at every value-position call site: DomainMapping (attribute, "
                 "index, call, flatten), Comparator operands, selected expressions in QueryObjectDescriptor/Entity/SetOf "
                 "deliver a row for every binding whatever truthy(value) is; `truthy` is an unconstrained function in the "
@@ -140,9 +142,9 @@ CLAIMS.update({
                      "outside the executor's heap model (exhaustive bounded stand-in under C20; its defect was repaired by "
                      "db0fee5, together with the operators replaying only the most general matching entries); it is covered by "
                      "the bounded families 'cache on vs off', 'conjunctions of disjunctions over three variables' and the "
-                     "rule-tree families only, labelled bounded. Level other: a genuine violation is recorded as a known finding "
-                     "(and_ / or_ over a condition on a flattened element replay the first element's truth value), so no "
-                     "proof-level claim is made"),
+                     "rule-tree and flattened-element families only, labelled bounded. Level other: the replay half of the property - "
+                     "the half that makes the cache transparent - is decided by bounded families only (they found three "
+                     "defects, repaired by 76dd8f9, db0fee5 and 488f548), so no proof-level claim is made"),
     'C20': dict(level='other', text="SeenSet.add / check / clear and IndexedCache.check are proved against the abstract view "
                 "(list of stored constraints + all_seen): check(q) <=> all_seen or some stored constraint is contained in q, "
                 "lookups are pure, add appends, clear empties. IndexedCache.insert / retrieve (nested-dict trie, recursive "
